@@ -299,6 +299,21 @@ pub fn c15_check(ck: &mut Checker, sim: &mut Sim, session: usize, req: &packed::
             // (a rebased start lies below the original start whose difficulty is the boundary)
             bad.push(("boundary_below_start_difficulty".into(), String::new()));
         }
+        // a sampled request: the boundary is start + (last - start) * (1 - last_n / gap), with
+        // the difficulty of the very block the request names as its start (the ratio is
+        // quantised to 10^-9)
+        if b.number() != 0 && last_number > start_number && last_number - start_number > last_n_cfg && last_td >= start_td {
+            let gap = (last_number - start_number) as f64;
+            let range = u256_f64(&(&last_td - &start_td));
+            let expected = u256_f64(&start_td) + range * (1.0 - (last_n_cfg as f64) / gap);
+            let got = u256_f64(&boundary);
+            if (got - expected).abs() > range * 1e-8 + 2.0 + expected.abs() * 1e-12 {
+                bad.push((
+                    "boundary_not_derived_from_the_start_block".into(),
+                    format!("boundary {:#x}, start difficulty {:#x}, last difficulty {:#x}", boundary, start_td, last_td),
+                ));
+            }
+        }
     }
     if start_number < last_number {
         let gap = last_number - start_number;
